@@ -59,7 +59,7 @@ const knownIM0 = "C07/im0-resume=pc+len(data)"
 // C07 — an interrupt at any boundary is transparent.
 func runC07(c *Ctx) {
 	mon.DiscardStdLog()
-	nprog := c.Pick(300, 6000)
+	nprog := c.Pick(300, 60000)
 	var mu sync.Mutex
 	var evals, accepted, deferred, midBlock, onHalt, baseSteps, totalSteps, im0Known int64
 	distinct := mon.NewDistinct(8_000_000)
